@@ -47,6 +47,8 @@ impl Src for KaniSrc {
     fn u128(&mut self) -> u128 { kani::any() }
     fn bool(&mut self) -> bool { kani::any() }
     fn assume(&mut self, c: bool) { kani::assume(c) }
+    // one symbolic array (element-wise any(), same order as the default loop, cheaper for CBMC)
+    fn bytes<const N: usize>(&mut self) -> [u8; N] { kani::any() }
 }
 
 /// Replays the concrete values of a Kani counterexample (`concrete_vals`, in the order the
